@@ -758,7 +758,7 @@ pub fn history_strategy(max_batches: usize) -> BoxedStrategy<History> {
         .prop_map(|(v, salt)| (v.into_iter().map(|(doc, text)| Op::Open { doc, text }).collect::<Vec<_>>(), salt));
     let batch = prop_oneof![
         6 => proptest::collection::vec(op(), 1..7),
-        1 => (any::<u8>(), 0u8..4, 0u8..4).prop_map(|(idx, a, b)| vec![Op::Config { idx }, Op::Close { doc: a }, Op::Close { doc: b }]),
+        2 => (any::<u8>(), 0u8..4, 0u8..4).prop_map(|(idx, a, b)| vec![Op::Config { idx }, Op::Close { doc: a }, Op::Close { doc: b }]),
         1 => (any::<u8>(), 0u8..4).prop_map(|(idx, doc)| vec![Op::ConfigAfterPull { idx, doc }]),
     ];
     (first, proptest::collection::vec((batch, any::<u64>()), 0..max_batches))
@@ -873,9 +873,9 @@ pub fn run(run: &mut Run) {
     run.require_class("scheduled_histories", "two_or_more_handlers_in_flight", (n / 2) as u64);
     run.require_class("scheduled_histories", "handlers_completed_out_of_arrival_order", (n / 3) as u64);
     run.require_class("scheduled_histories", "close_or_delete_in_a_concurrent_batch", (n / 10) as u64);
-    run.require_class("scheduled_histories", "configuration_change_racing_with_close", (n / 10) as u64);
-    run.require_class("scheduled_histories", "settings_pulled_before_the_change_notification", (n / 10) as u64);
-    run.require_class("scheduled_histories", "deletion_of_a_path_that_prefixes_an_open_document", (n / 10) as u64);
+    run.require_class("scheduled_histories", "configuration_change_racing_with_close", (n / 20) as u64);
+    run.require_class("scheduled_histories", "settings_pulled_before_the_change_notification", (n / 20) as u64);
+    run.require_class("scheduled_histories", "deletion_of_a_path_that_prefixes_an_open_document", (n / 20) as u64);
 }
 
 pub fn replay(_check: &str, case: Value, _run: &mut Run) -> Result<(), String> {
